@@ -23,7 +23,7 @@ vars == <<s>>
 (* character classes and special bytes *)
 ByteAlphabet == {"0", "d", "x", "l", "U", "-", "_", ".", ":", "%", "[", "]", "#", "SP", "TAB",
                  "CR", "NL", "/", "@", "u2", "u3", "FW.", "BAD", "TRUNC", "CTL", "NUL", "!",
-                 "QUOTE", "BSL", "&", "RUN63", "RUN64", "RUN254"}
+                 "QUOTE", "SQ", "BSL", "&", "RUN63", "RUN64", "RUN254"}
 
 (* ARPA-shaped names: label kinds, then a suffix shape *)
 ArpaLabels == {"o7", "o0", "o07", "o00", "o256", "o100", "o255", "na", "nA", "n0", "ab", "g", "dash-", "L63", "L64", "uK"}
